@@ -172,10 +172,19 @@ def sequence(ctx, seed):
                     continue
                 ext = writers.write._writer_map[fmt]['extension']
                 src = os.path.join(d, '..', os.path.basename(d) + '_in' + ext)
+                text = txt[1]
+                if fmt == 'nwchem' and rng.random() < 0.6:
+                    # NWChem keywords are case-insensitive: the same input with its BASIS line in lower case
+                    text = '\n'.join(l.lower() if l.upper().startswith('BASIS') else l for l in text.split('\n'))
                 with open(src, 'w') as f:
-                    f.write(txt[1])
+                    f.write(text)
                 from basis_set_exchange import readers
                 comp = readers.read_formatted_basis_file(src, validate=True, as_component=True)
+                want_types = {(int(z), tuple(sh['angular_momentum']), sh['function_type']) for z, el in full['elements'].items() for sh in el['electron_shells']}
+                got_types = {(int(z), tuple(sh['angular_momentum']), sh['function_type']) for z, el in comp['elements'].items() for sh in el['electron_shells']}
+                if {(z, t) for z, a, t in want_types if max(a) >= 2} != {(z, t) for z, a, t in got_types if max(a) >= 2}:
+                    ctx.violation('readers.read_formatted_basis_file', 'file-function-types:' + fmt,
+                                  'the %s file of a spherical basis is read as %s' % (fmt, sorted({t for _z, _a, t in got_types})), {'kind': 'sequence', 'seed': seed, 'step': step})
                 zs = list(comp['elements'])
                 refs = 'reffile'
                 r = impl.call(curate.add_basis, src, d, *strs, 'generated', refs)
@@ -260,8 +269,88 @@ def sequence(ctx, seed):
         shutil.rmtree(d, ignore_errors=True)
 
 
+def components_scenario(ctx, seed):
+    """add_from_components on a directory that already holds an orbital component and two ECP components for one of its
+    elements: orbital + one ECP is a valid combination (retrieved in a fresh process: the shells of the one, the ECP of the
+    other, both reference groups, only the common elements); orbital + both ECPs is invalid (one element cannot carry two ECPs)
+    and must be refused with the directory byte-for-byte unchanged"""
+    rng = random.Random(seed)
+    from basis_set_exchange import curate
+    d = tempfile.mkdtemp(prefix='vcmp')
+    history = []
+    try:
+        orb = component_of(rng)
+        zs = sorted(orb['elements'], key=int)
+        z = rng.choice(zs)
+
+        def ecp_component():
+            pots, ne = gen.gen_ecp(rng)
+            return {'molssi_bse_schema': {'schema_type': 'component', 'schema_version': '0.1'}, 'description': 'generated ECP', 'data_source': 'generated',
+                    'elements': {z: {'ecp_potentials': pots, 'ecp_electrons': ne}}}
+        parts = [('Part-Orb', 'part-orb', orb, 'reforb'), ('Part-EcpA', 'part-ecpa', ecp_component(), 'refecpa'), ('Part-EcpB', 'part-ecpb', ecp_component(), 'refecpb')]
+        cfiles = {}
+        for name, fb, comp, ref in parts:
+            before = snapshot(d)
+            r = impl.call(curate.add_basis_from_dict, copy.deepcopy(comp), d, 'parts', fb, name, 'addfam', 'orbital', 'desc of ' + name, '0', 'rev 0', 'generated', ref)
+            history.append(['add_basis_from_dict', name, r[0] if r[0] == 'ok' else r[1]])
+            if r[0] != 'ok':
+                ctx.violation('curate.add_basis_from_dict', 'valid-refused:' + r[1], 'a valid component (%s) is refused with %s' % (name, r[1]), {'kind': 'components', 'seed': seed, 'history': history})
+                return
+            new = [k for k in set(snapshot(d)) - set(before) if k.endswith('.json') and json.loads(open(os.path.join(d, k)).read()).get('molssi_bse_schema', {}).get('schema_type') == 'component']
+            if len(new) != 1:
+                return
+            cfiles[name] = os.path.join(d, new[0])
+        today = datetime.date.today().isoformat()
+        # valid: orbital part + one ECP
+        before = snapshot(d)
+        r = impl.call(curate.add_from_components, [cfiles['Part-Orb'], cfiles['Part-EcpA']], d, 'comb', 'comb-a', 'Comb-A', 'addfam', 'orbital', 'desc of Comb-A', '1', 'rev 1')
+        after = snapshot(d)
+        history.append(['add_from_components', 'Comb-A', r[0] if r[0] == 'ok' else r[1]])
+        ctx.case((seed, 'components-valid'), True, 'add:components')
+        replay = {'kind': 'components', 'seed': seed, 'history': history}
+        for k, v in before.items():
+            if k != 'METADATA.json' and after.get(k) != v:
+                ctx.violation('curate.add_from_components', 'overwritten', 'file %s was changed or removed by an addition' % k, replay)
+        if r[0] != 'ok':
+            ctx.violation('curate.add_from_components', 'valid-refused:' + r[1], 'orbital component + one ECP component is refused with %s' % r[1], replay)
+        else:
+            tmpidx = os.path.join(d, '..', os.path.basename(d) + '_idx.json')
+            g = impl.call(curate.create_metadata_file, tmpidx, d)
+            if g[0] != 'ok' or json.load(open(tmpidx)) != json.loads(after['METADATA.json']):
+                ctx.violation('curate.add_from_components', 'index-inconsistent', 'after the addition the index differs from the regenerated one (%s)' % (g, ), replay)
+            if os.path.exists(tmpidx):
+                os.unlink(tmpidx)
+            res = fresh_get(d, [['Comb-A', '1'], ['Comb-A', None]])
+            for q, rr in zip(('1', None), res):
+                ctx.case((seed, 'components-retrieve', q), True, 'retrieve')
+                if rr[0] != 'ok':
+                    ctx.violation('api.get_basis', 'retrieve:raises', 'the combined basis cannot be retrieved (%s)' % rr[1], replay)
+                    continue
+                b = rr[1]
+                ecp = parts[1][2]['elements'][z]
+                el = b['elements'].get(z, {})
+                keys = [k for g_ in el.get('references', []) for k in g_['reference_keys']]
+                if list(b['elements']) != [z] or el.get('electron_shells') != orb['elements'][z]['electron_shells'] or \
+                        el.get('ecp_potentials') != ecp['ecp_potentials'] or el.get('ecp_electrons') != ecp['ecp_electrons'] or keys != ['reforb', 'refecpa'] or b['version'] != '1':
+                    ctx.violation('api.get_basis', 'data:components', 'the basis combined from components is not the shells of the one and the ECP of the other for their common element', replay)
+        # invalid: two ECPs for the same element
+        before = snapshot(d)
+        r = impl.call(curate.add_from_components, [cfiles['Part-Orb'], cfiles['Part-EcpA'], cfiles['Part-EcpB']], d, 'comb', 'comb-b', 'Comb-B', 'addfam', 'orbital', 'desc of Comb-B', '0', 'rev 0')
+        after = snapshot(d)
+        history.append(['add_from_components:two-ecps', 'Comb-B', r[0] if r[0] == 'ok' else r[1]])
+        ctx.case((seed, 'components-two-ecps'), True, 'add:components-two-ecps')
+        replay = {'kind': 'components', 'seed': seed, 'history': history}
+        if r[0] == 'ok':
+            ctx.violation('curate.add_from_components', 'invalid-accepted:two-ecps', 'components that give one element two ECPs were combined and stored', replay)
+        elif after != before:
+            ctx.violation('curate.add_from_components', 'failed-add-changed-directory:two-ecps', 'a refused combination left the directory changed: %s'
+                          % sorted(set(after) ^ set(before))[:4], replay)
+    finally:
+        shutil.rmtree(d, ignore_errors=True)
+
+
 def run(ctx):
-    ctx.rule = ('random sequences (length 1..8) of add_basis_from_dict / add_basis (files in nwchem, gaussian94, turbomole format) on fresh '
+    ctx.rule = ('random sequences (length 1..8) of add_basis_from_dict / add_basis (files in nwchem, gaussian94, turbomole format) and scenarios with add_from_components (orbital + ECP components: valid; two ECPs for one element: refused) on fresh '
                 'temporary directories: repeated names, versions 0,1,2,9,10,11, sub-directories, reference maps as str / list / dict / '
                 'None, invalid data, invalid role / family, a registered name under another file base, bad reference maps; after every '
                 'step: directory snapshot (nothing overwritten, refused additions leave the directory byte-for-byte unchanged), the '
@@ -271,9 +360,13 @@ def run(ctx):
     ctx.trusted.append('the file system is modelled as a finite map path -> parsed JSON (no crashes, no concurrent writers); datetime.date.today is a parameter of the model')
     for i in range(ctx.budget(30, 1200)):
         sequence(ctx, ctx.seed * 19 + i)
+    for i in range(ctx.budget(6, 200)):
+        components_scenario(ctx, ctx.seed * 23 + i)
 
 
 def replay(ctx, rec):
     r = rec.get('replay', rec)
-    if 'seed' in r:
+    if r.get('kind') == 'components':
+        components_scenario(ctx, r['seed'])
+    elif 'seed' in r:
         sequence(ctx, r['seed'])
